@@ -5,9 +5,11 @@ import (
 	"encoding/json"
 	"fmt"
 	"image"
+	"image/color"
 	"math"
 	"math/rand"
 	"sort"
+	"strings"
 	"time"
 
 	"github.com/deepteams/webp"
@@ -104,6 +106,16 @@ func changedFields(m map[string]int) string {
 	}
 	sort.Strings(ks)
 	return fmt.Sprint(ks)
+}
+
+func sizeClass(sz [2]int) string {
+	switch {
+	case sz[0] == 1 || sz[1] == 1:
+		return "one pixel wide or high"
+	case sz[0] < 16 || sz[1] < 16:
+		return "below one macroblock"
+	}
+	return "macroblock boundary"
 }
 
 func safeEncode(img image.Image, o *webp.EncoderOptions) (out []byte, err error, pan any) {
@@ -212,11 +224,79 @@ func checkC20(args []string) {
 		c := fileCase[id]
 		run.Violate("nonconformant|"+changedFields(c.Opt)+"|"+why, optKey(c.Opt)+": "+why, c)
 	}
+	// every valid single-field option set (one field away from DefaultOptions(), each of its boundary values) on
+	// every boundary picture size: Encode must succeed and the file must decode to a picture of that size
+	{
+		sizes := [][2]int{{1, 1}, {1, 2}, {2, 1}, {1, 16}, {16, 1}, {1, 37}, {37, 1}, {2, 2}, {3, 5}, {15, 17}, {16, 16}, {17, 33}}
+		pics := map[[2]int]image.Image{}
+		for _, sz := range sizes {
+			pics[sz] = noiseNRGBA(rng, sz[0], sz[1], 2)
+		}
+		nGrid := 0
+		for _, raw := range res.Tagged("CASE") {
+			var c optCase
+			if json.Unmarshal(raw, &c) != nil || !c.Valid {
+				continue
+			}
+			sig := changedFields(c.Opt)
+			if strings.Count(sig, " ") > 0 || sig == "[]" { // more than one field changed, or none
+				if sig != "[]" {
+					continue
+				}
+			}
+			k := optKey(c.Opt)
+			if seen["grid|"+k] {
+				continue
+			}
+			seen["grid|"+k] = true
+			for _, sz := range sizes {
+				name := fmt.Sprintf("%dx%d picture with %s", sz[0], sz[1], k)
+				out, err, pan := safeEncode(pics[sz], optsFromTokens(c.Opt))
+				nGrid++
+				run.Eval("size-grid|" + sig + fmt.Sprint(sz))
+				if pan != nil {
+					run.Violate(fmt.Sprintf("panic|%s|size-class %s", sig, sizeClass(sz)), fmt.Sprintf("Encode panicked on a %s: %v", name, pan), map[string]any{"size": sz, "case": c})
+					continue
+				}
+				if err != nil {
+					run.Violate(fmt.Sprintf("valid-rejected|%s|size-class %s", sig, sizeClass(sz)), fmt.Sprintf("Encode rejected a %s: %v", name, err), map[string]any{"size": sz, "case": c})
+					continue
+				}
+				im, derr := guardedDecode(out)
+				if derr != nil || im.Bounds().Dx() != sz[0] || im.Bounds().Dy() != sz[1] {
+					run.Violate(fmt.Sprintf("undecodable|%s|size-class %s", sig, sizeClass(sz)), fmt.Sprintf("%s: the file does not decode to a picture of that size (%v)", name, derr), map[string]any{"size": sz, "case": c})
+				}
+			}
+		}
+		run.Cov["single_field_option_sets_x_boundary_sizes"] = nGrid
+	}
 	// EmulateJpegSize, nil options, nil arguments, boundary images, oversized metadata
 	d1, _, _ := safeEncode(img, webp.DefaultOptions())
-	d2, err2, pan2 := safeEncode(img, nil)
-	if pan2 != nil || err2 != nil || !bytes.Equal(d1, d2) {
-		run.Violate("nil-options", fmt.Sprintf("Encode(nil options) differs from DefaultOptions(): err=%v panic=%v", err2, pan2), "nil options")
+	// nil options = DefaultOptions(), on pictures on which every default matters: graded and soft-edged alpha (the alpha
+	// filter and alpha quality defaults), smooth and textured colour (SNS, filter, segments), palette-like content
+	nilPics := map[string]image.Image{"noise+alpha 17x13": img, "graded alpha 40x30": gradientAlpha(rng, 40, 30), "photo 64x48": lossyPicture(rng, 64, 48, "smooth"),
+		"graded texture 48x48": lossyPicture(rng, 48, 48, "graded"), "palette 24x24": palettedNRGBA(rng, 24, 24, 9), "gray 31x9": image.NewGray(image.Rect(0, 0, 31, 9))}
+	{
+		cone := image.NewNRGBA(image.Rect(0, 0, 48, 40))
+		for y := 0; y < 40; y++ {
+			for x := 0; x < 48; x++ {
+				dx, dy := 2*x-48, 2*y-40
+				a := 255 - (dx*dx+dy*dy)*300/1601
+				if a < 0 {
+					a = 0
+				}
+				cone.SetNRGBA(x, y, color.NRGBA{uint8(x * 5), uint8(y * 6), uint8(rng.Intn(256)), uint8(a)})
+			}
+		}
+		nilPics["soft round alpha 48x40"] = cone
+	}
+	for name, p := range nilPics {
+		dd, _, _ := safeEncode(p, webp.DefaultOptions())
+		d2, err2, pan2 := safeEncode(p, nil)
+		run.Eval("nil-options|" + name)
+		if pan2 != nil || err2 != nil || !bytes.Equal(dd, d2) {
+			run.Violate("nil-options", fmt.Sprintf("Encode(nil options) differs from Encode(DefaultOptions()) on the picture %q: err=%v panic=%v, %d vs %d bytes", name, err2, pan2, len(d2), len(dd)), "nil options: "+name)
+		}
 	}
 	ej := webp.DefaultOptions()
 	ej.EmulateJpegSize = true
